@@ -126,7 +126,9 @@ def batching_focus(tier="quick"):
     """one batching / combining node right below the entries, long runs of colliding elements,
     and about every second emission without metadata (member order vs. metadata order needs an
     unlabelled member between labelled ones)"""
-    return mdcommon.md_case(tier, faults=False, first=sorted(MULTI), max_nodes=2, max_actions=30,
+    # (the keyed, de-duplicating nodes more often: their metadata bookkeeping is per key)
+    return mdcommon.md_case(tier, faults=False, first=sorted(MULTI) + ["partition_unique"] * 5 +
+                            ["timed_window_unique"] * 3, max_nodes=2, max_actions=30,
                             modes=("sync", "sync", "fut"), md_values=(0, 0, 1, 1, 2, 4),
                             min_actions=8)
 
@@ -201,5 +203,5 @@ def execute_feedback(case):
 
 
 PARTS = [Part("schedules", strategy, execute, quick=1600, thorough=8000),
-         Part("batching-focus", batching_focus, execute, quick=800, thorough=6000),
+         Part("batching-focus", batching_focus, execute, quick=1200, thorough=6000),
          Part("sync-with-feedback", feedback_case, execute_feedback, quick=800, thorough=6000)]
